@@ -66,7 +66,7 @@ type Out struct {
 func runRest(c Case) (out Out) {
 	out = Out{ID: c.ID, RetAtD: -1, Sched: []string{}, HObs: [][]any{}}
 	gate := make(chan hcmd)
-	acks := make(chan hack, len(c.Script)+4)
+	acks := make(chan hack, 4*len(c.Script)+16)
 	var sret atomic.Bool
 	sRet := make(chan struct{})
 	var sPanic any
@@ -102,6 +102,18 @@ func runRest(c Case) (out Out) {
 			}
 		}()
 		for _, a := range script {
+			if a[0].(string) == "copy" {
+				doCopy(w, a, func() {
+					cmd := recvGate()
+					if cmd.selfCancel {
+						cancelParent()
+						for j := 0; j < cmd.yield; j++ {
+							runtime.Gosched()
+						}
+					}
+				}, func(k hack) { acks <- k })
+				continue
+			}
 			cmd := recvGate()
 			if cmd.selfCancel {
 				cancelParent()
